@@ -116,7 +116,10 @@ def main(argv=None):
         sys.exit(do_replay(pid, mod, a.replay))
 
     t0 = time.time()
-    work = os.path.join(VERIF, ".work", pid)
+    # one scratch directory per run (two runs of the same property may overlap, e.g. a sweep and a seeded-tree run);
+    # moved to .work/<id> afterwards for inspection
+    final_work = os.path.join(VERIF, ".work", pid)
+    work = os.path.join(VERIF, ".work", f"{pid}.run{os.getpid()}")
     shutil.rmtree(work, ignore_errors=True)
     os.makedirs(work, exist_ok=True)
     ev_path = os.path.join(VERIF, "evidence", f"{pid}.json")
@@ -137,6 +140,7 @@ def main(argv=None):
 
     env = env_for_workers()
     env["VERIF_CHILD"] = "1"
+    env["VERIF_WORK"] = work
 
     def run_task(t):
         s, i, n = t
@@ -159,6 +163,11 @@ def main(argv=None):
 
     with ThreadPoolExecutor(max_workers=a.jobs) as ex:
         results = list(ex.map(run_task, tasks))
+    shutil.rmtree(final_work, ignore_errors=True)
+    try:
+        os.replace(work, final_work)
+    except OSError:
+        pass
 
     # ---- merge ------------------------------------------------------------------
     known = core.Known(pid)
